@@ -462,14 +462,30 @@ void __wrap_free(void *p) { heap_del(p); __real_free(p); }
 // so that whatever hides behind a debug switch runs (cooperative fault point; libc's own lookups are not affected)
 char *__real_getenv(const char *);
 char *__real_secure_getenv(const char *);
-static char *net_env_answer(uintptr_t pc, char *real) {
+static char *net_env_answer(const char *name, uintptr_t pc, char *real) {
     if (!in_sim() || !sim::g_symtab.is_repo(pc)) return real;
     g_world->count("ev.getenv_by_program");
-    static char one[] = "1";
-    return g_world->env_on ? one : nullptr;
+    if (!g_world->env_on) return nullptr;
+    // a plausible value for the variable asked for, chosen by the run's seed: well-known variables get values of their kind,
+    // anything else a switch-like value, a number, an empty string, a path or an over-long string
+    static char vals[][320] = {"1", "0", "", "yes", "true", "on", "2", "65536", "-1", "/dev/null", "/tmp", "debug", "all",
+                               "xterm-256color", "xterm", "vt100", "dumb", "linux", "screen-256color",
+                               "C", "C.UTF-8", "en_US.UTF-8", "de_DE.ISO-8859-1", "UTC", "Europe/Berlin", ":/etc/localtime", ""};
+    static bool filled = false;
+    if (!filled) { memset(vals[26], 'A', 300); vals[26][300] = 0; filled = true; }
+    uint64_t h = sim::mix64(g_world->env_seed, 0x9e37);
+    for (const char *c = name; c && *c; c++) h = sim::mix64(h, (uint64_t)(unsigned char)*c);
+    auto pick = [&](int lo, int n) { return vals[lo + (int)(h % (uint64_t)n)]; };
+    if (name && !strcmp(name, "TERM")) return pick(13, 6);
+    if (name && (!strncmp(name, "LC_", 3) || !strcmp(name, "LANG") || !strcmp(name, "LANGUAGE"))) return pick(19, 4);
+    if (name && !strcmp(name, "TZ")) return pick(23, 3);
+    if (name && (!strcmp(name, "HOME") || !strcmp(name, "TMPDIR") || !strcmp(name, "PWD"))) return pick(9, 2);
+    if (name && (!strcmp(name, "COLUMNS") || !strcmp(name, "LINES"))) return pick(6, 3);
+    if (h % 10 < 4) return vals[0];  // most switches are tested for "set" or for "1"
+    return vals[h / 16 % 27];
 }
-char *__wrap_getenv(const char *n) { return net_env_answer((uintptr_t)__builtin_return_address(0), __real_getenv(n)); }
-char *__wrap_secure_getenv(const char *n) { return net_env_answer((uintptr_t)__builtin_return_address(0), __real_secure_getenv(n)); }
+char *__wrap_getenv(const char *n) { return net_env_answer(n, (uintptr_t)__builtin_return_address(0), __real_getenv(n)); }
+char *__wrap_secure_getenv(const char *n) { return net_env_answer(n, (uintptr_t)__builtin_return_address(0), __real_secure_getenv(n)); }
 
 int __wrap_socket(int domain, int type, int protocol) {
     if (!in_sim()) return __real_socket(domain, type, protocol);
@@ -763,6 +779,21 @@ ssize_t __wrap_write(int fd, const void *buf, size_t len) {
     World &w = *g_world;
     if (fd == 1) {
         w.sched_point();
+        if (w.stdout_fault_p > 0 && len > 0 && w.rng_net.chance(w.stdout_fault_p)) {
+            // standard output is a pipe whose reader has fallen behind (non-blocking: EAGAIN), the call is interrupted, or only a part fits
+            Node &nd = w.cur_node();
+            nd.stdout_fault_seen = true;
+            unsigned k = (unsigned)w.rng_net.below(3);
+            w.count(k == 0 ? "fault.stdout_eagain" : k == 1 ? "fault.stdout_eintr" : "fault.stdout_short_write");
+            w.log("stdout-write-fault", len, k, buf, std::min<size_t>(len, 16));  // (reads the buffer the program handed over, like the kernel would)
+            if (k == 2 && len > 1) {
+                size_t part = 1 + (size_t)w.rng_net.below(len - 1);
+                if (w.hooks.on_stdout_fd) w.hooks.on_stdout_fd(w, w.cur_node_id(), (const uint8_t *)buf, part);
+                return (ssize_t)part;
+            }
+            errno = k == 1 ? EINTR : EAGAIN;
+            return -1;
+        }
         w.log("stdout-write", len, 0, buf, len);
         w.count("ev.stdout_write");
         if (w.hooks.on_stdout_fd) w.hooks.on_stdout_fd(w, w.cur_node_id(), (const uint8_t *)buf, len);
